@@ -838,3 +838,162 @@ Proof.
     + intros (i & x & H & ->). exists (i, x). split; [reflexivity | exact H].
     + intros ([i x] & <- & H). exists i, x. split; [exact H | reflexivity].
 Qed.
+
+(* ---------- asString: the same fill, through the rune conversion ---------- *)
+
+Definition rename_item (nm : name) (m : val) : val :=
+  match m with VTup [(a, i); (_, x)] => VTup [(a, i); (nm, x)] | _ => m end.
+
+Lemma opt_members_rename nm : forall c o, opt_members nm o c = map (rename_item nm) (opt_members n_item o c).
+Proof.
+  induction c as [|x c IH]; intros o; [reflexivity|].
+  destruct x as [v|]; cbn [opt_members map]; rewrite IH; reflexivity.
+Qed.
+
+Definition char_cell (o : option val) : Prop :=
+  match o with Some v => exists z, v = vint z /\ 0 <= z | None => True end.
+
+Lemma str_cells_decode cells :
+  Forall char_cell cells ->
+  str_cells (map (fun o => match o with Some v => rune_of v | None => -1 end) cells) = cells.
+Proof.
+  unfold str_cells. induction 1 as [|o cells Ho _ IH]; [reflexivity|].
+  cbn [map]. rewrite IH. f_equal. destruct o as [v|]; [|reflexivity].
+  destruct Ho as (z & -> & Hz). cbn [rune_of vint]. destruct (z <? 0) eqn:E; [lia | reflexivity].
+Qed.
+
+Lemma fill_cell_from lo hi l j x :
+  min_max l = Some (lo, hi) ->
+  nth_error (fill lo (Z.to_nat (hi - lo + 1)) l) j = Some (Some x) -> exists i, In (i, x) l.
+Proof.
+  intros Emm H. pose proof (min_max_bounds l lo hi Emm) as Hb.
+  assert (Hlohi : lo <= hi).
+  { destruct l as [|t l]; [discriminate|]. specialize (Hb t (or_introl eq_refl)). lia. }
+  unfold fill in H. rewrite fill_fold in H.
+  - rewrite repeat_length in H. destruct (last_write l (lo + Z.of_nat j)) as [y|] eqn:El.
+    + destruct (j <? Z.to_nat (hi - lo + 1))%nat; [|discriminate]. injection H as ->.
+      eexists. apply last_write_in. exact El.
+    + exfalso. clear -H. revert j H. induction (Z.to_nat (hi - lo + 1)) as [|n IH]; intros [|j]; simpl; try discriminate. apply IH.
+  - intros t Ht. rewrite repeat_length. specialize (Hb t Ht). lia.
+Qed.
+
+Theorem as_string_refines l :
+  l <> [] -> (forall i x y, In (i, x) l -> In (i, y) l -> x = y) ->
+  (forall i x, In (i, x) l -> exists z, x = vint z /\ 0 <= z) ->
+  wf (as_string l) /\
+  forall m, In m (abs (as_string l)) <-> exists i x, In (i, x) l /\ m = vpair n_char (vint i) x.
+Proof.
+  intros Hne Hnc Hch. destruct (as_array_refines l Hne Hnc) as [Hwf Hin].
+  unfold as_string, as_array in *. destruct (min_max l) as [[lo hi]|] eqn:Emm.
+  2:{ exfalso. destruct l as [|[i x] l]; [congruence|]. cbn [min_max] in Emm. destruct (min_max l) as [[a b]|]; discriminate. }
+  set (cells := fill lo (Z.to_nat (hi - lo + 1)) l) in *.
+  assert (Hcells : Forall char_cell cells).
+  { apply Forall_forall. intros o Ho. destruct o as [v|]; [|exact I].
+    apply In_nth_error in Ho as (j & Hj). destruct (fill_cell_from lo hi l j v Emm Hj) as (i & Hi).
+    exact (Hch i v Hi). }
+  split.
+  - unfold wf in *. cbn [wfb] in *. rewrite Z.eqb_refl, andb_true_r. apply andb_true_iff in Hwf as [Hc _].
+    destruct cells; [discriminate Hc | reflexivity].
+  - intros m. cbn [abs] in *. rewrite (str_cells_decode cells Hcells), opt_members_rename, in_map_iff. split.
+    + intros (m' & <- & Hm'). apply Hin in Hm' as (i & x & Hi & ->). exists i, x. split; [exact Hi | reflexivity].
+    + intros (i & x & Hi & ->). exists (vpair n_item (vint i) x). split; [reflexivity|].
+      apply Hin. exists i, x. split; [exact Hi | reflexivity].
+Qed.
+
+Lemma items_of_char ms : forall l,
+  items_of n_char ms = Some l -> ms = map (fun t => vpair n_char (vint (fst t)) (snd t)) l.
+Proof.
+  induction ms as [|m ms IH]; intros l; cbn [items_of].
+  - intros [= <-]. reflexivity.
+  - destruct (sugar_slot m) as [[n i]|] eqn:Es; [|discriminate].
+    destruct (item_at m) as [[i' x]|] eqn:Ei; [|discriminate].
+    destruct (items_of n_char ms) as [r|]; [|discriminate].
+    destruct (name_eqb n n_char) eqn:En; [|discriminate]. intros [= <-].
+    cbn [map fst snd]. rewrite <- (IH r eq_refl). f_equal.
+    destruct m as [|attrs|]; try discriminate.
+    destruct attrs as [|[n1 k] [|[n2 y] [|p q]]]; try discriminate; (destruct k as [[z|z]| |]; try discriminate).
+    cbn [sugar_slot item_at] in Es, Ei. injection Ei as <- <-.
+    destruct (name_eqb n1 n_at) eqn:E1; [|discriminate]. apply name_eqb_eq in E1. subst n1.
+    destruct (name_eqb n2 n_item) eqn:E2.
+    + exfalso. injection Es as <- _. discriminate En.
+    + destruct (name_eqb n2 n_char) eqn:E3.
+      * apply name_eqb_eq in E3. subst n2. reflexivity.
+      * exfalso. destruct (name_eqb n2 n_byte); [|discriminate].
+        destruct y as [[?|?]| |]; try discriminate. injection Es as <- _. discriminate En.
+Qed.
+
+Lemma items_of_char_not_item ms l : ms <> [] -> items_of n_char ms = Some l -> items_of n_item ms = None.
+Proof.
+  destruct ms as [|m ms]; [congruence|]. intros _. cbn [items_of].
+  destruct (sugar_slot m) as [[n i]|]; [|reflexivity].
+  destruct (item_at m) as [t|]; [|reflexivity].
+  destruct (items_of n_char ms); [|discriminate].
+  destruct (name_eqb n n_char) eqn:En; [|discriminate]. intros _.
+  apply name_eqb_eq in En. subst n. destruct (items_of n_item ms); reflexivity.
+Qed.
+
+(* a ++ b on strings, to the layout *)
+Theorem rep_concat_string_layout a b ms l :
+  rep_concat_added a b = Some ms -> ms <> [] -> items_of n_char ms = Some l ->
+  (forall i x y, In (i, x) l -> In (i, y) l -> x = y) ->
+  (forall i x, In (i, x) l -> exists z, x = vint z /\ 0 <= z) ->
+  rep_concat a b = Some (as_string l) /\ wf (as_string l) /\ forall m, In m (abs (as_string l)) <-> In m ms.
+Proof.
+  intros Ha Hne Hl Hnc Hch. pose proof (items_of_char ms l Hl) as Hms.
+  assert (Hln : l <> []) by (intros ->; apply Hne; exact Hms).
+  destruct (as_string_refines l Hln Hnc Hch) as [Hwf Hin].
+  split; [|split; [exact Hwf|]].
+  - unfold rep_concat. rewrite Ha. unfold seq_finish. rewrite (items_of_char_not_item ms l Hne Hl), Hl.
+    destruct ms; [congruence | reflexivity].
+  - intros m. rewrite Hin, Hms, in_map_iff. split.
+    + intros (i & x & H & ->). exists (i, x). split; [reflexivity | exact H].
+    + intros ([i x] & <- & H). exists i, x. split; [exact H | reflexivity].
+Qed.
+
+(* ---------- asBytes: contiguous indices only (a gap becomes zero bytes, KF-C05-02) ---------- *)
+
+Lemma fill_length lo n l : length (fill lo n l) = n.
+Proof.
+  unfold fill. assert (H : forall acc, length (fold_left (fun acc t => set_nth_opt (Z.to_nat (fst t - lo)) (Some (snd t)) acc) l acc) = length acc).
+  { induction l as [|t l IH]; intros acc; [reflexivity|]. cbn [fold_left]. rewrite IH, set_nth_opt_length. reflexivity. }
+  rewrite H, repeat_length. reflexivity.
+Qed.
+
+Lemma byte_cells_decode cells :
+  Forall (fun o => exists z, o = Some (vint z)) cells ->
+  byte_cells (map (fun o => match o with Some v => rune_of v | None => 0 end) cells) = cells.
+Proof.
+  unfold byte_cells. induction 1 as [|o cells (z & ->) _ IH]; [reflexivity|].
+  cbn [map rune_of vint]. rewrite IH. reflexivity.
+Qed.
+
+Theorem as_bytes_refines l :
+  l <> [] -> (forall i x y, In (i, x) l -> In (i, y) l -> x = y) ->
+  (forall i x, In (i, x) l -> exists z, x = vint z) ->
+  (forall lo hi, min_max l = Some (lo, hi) -> forall i, lo <= i <= hi -> exists x, In (i, x) l) ->
+  wf (as_bytes l) /\
+  forall m, In m (abs (as_bytes l)) <-> exists i x, In (i, x) l /\ m = vpair n_byte (vint i) x.
+Proof.
+  intros Hne Hnc Hch Hgap. destruct (as_array_refines l Hne Hnc) as [Hwf Hin].
+  unfold as_bytes, as_array in *. destruct (min_max l) as [[lo hi]|] eqn:Emm.
+  2:{ exfalso. destruct l as [|[i x] l]; [congruence|]. cbn [min_max] in Emm. destruct (min_max l) as [[a b]|]; discriminate. }
+  pose proof (min_max_bounds l lo hi Emm) as Hb.
+  set (n := Z.to_nat (hi - lo + 1)) in *. set (cells := fill lo n l) in *.
+  assert (Hcells : Forall (fun o => exists z, o = Some (vint z)) cells).
+  { apply Forall_forall. intros o Ho. apply In_nth_error in Ho as (j & Hj).
+    assert (Hjn : (j < n)%nat).
+    { rewrite <- (fill_length lo n l). apply nth_error_Some. fold cells. congruence. }
+    destruct (Hgap lo hi eq_refl (lo + Z.of_nat j)) as (x & Hx); [unfold n in Hjn; lia|].
+    destruct (in_last_write l _ x Hx) as (y & Hy).
+    unfold cells, fill in Hj. rewrite fill_fold in Hj.
+    - rewrite Hy, repeat_length in Hj. apply Nat.ltb_lt in Hjn. rewrite Hjn in Hj. injection Hj as <-.
+      destruct (Hch _ y (last_write_in _ _ _ Hy)) as (z & ->). exists z. reflexivity.
+    - intros t Ht. rewrite repeat_length. specialize (Hb t Ht). unfold n. lia. }
+  split.
+  - unfold wf in *. cbn [wfb] in *. apply andb_true_iff in Hwf as [Hc _].
+    destruct cells; [discriminate Hc | reflexivity].
+  - intros m. cbn [abs] in *. rewrite (byte_cells_decode cells Hcells), opt_members_rename, in_map_iff. split.
+    + intros (m' & <- & Hm'). apply Hin in Hm' as (i & x & Hi & ->). exists i, x. split; [exact Hi | reflexivity].
+    + intros (i & x & Hi & ->). exists (vpair n_item (vint i) x). split; [reflexivity|].
+      apply Hin. exists i, x. split; [exact Hi | reflexivity].
+Qed.
